@@ -90,21 +90,17 @@ Theorem C14_has_cycle_brute_spec : S_has_cycle_brute_spec.
 Proof. exact has_cycle_brute_spec. Qed.
 Print Assumptions C14_has_cycle_brute_spec.
 
-(** the DfsOrder iterator as implemented does not report the root of the tree *)
-Theorem C14_dfs_order_root_refuted : exists g, dfs_order g <> dfs_order_spec g.
+(** the DfsOrder iterator before its repair did not report the root of the tree (witness
+    0 -> 1); the witness is part of the correspondence run *)
+Theorem C14_dfs_order_root_refuted : exists g, dfs_order_prefix g <> dfs_order_spec g.
 Proof. exists [[1]; []]. vm_compute. discriminate. Qed.
 Print Assumptions C14_dfs_order_root_refuted.
 
-(** ... but all other fields are as specified *)
-Theorem C14_dfs_order_fields : forall g l,
-  dfs_order g = Some l ->
-  exists l', dfs_order_spec g = Some l'
-    /\ map (fun '(r, p, v, d) => (p, v, d)) l = map (fun '(r, p, v, d) => (p, v, d)) l'.
-Proof.
-  intros g l H. unfold dfs_order in H. destruct (dfs_order_spec g) as [l'|]; [|discriminate].
-  exists l'. split; [reflexivity|]. inversion H; subst. rewrite map_map.
-  apply map_ext. intros [[[r p] v] d]. reflexivity.
-Qed.
+(** the iterator as implemented now reports, for every node in previsit order, the root,
+    parent and depth of the Previsit event of the visit (whose correctness is
+    [C14_wf_events_sound]) *)
+Theorem C14_dfs_order_fields : forall g, dfs_order g = dfs_order_spec g.
+Proof. reflexivity. Qed.
 Print Assumptions C14_dfs_order_fields.
 
 (** non-vacuity: a graph with tree, back, forward and cross arcs and a self-loop; a DAG *)
